@@ -437,3 +437,168 @@ Proof.
   - intros [p' [Inj [Id D]]]. specialize (D 0 (le_n 1)). specialize (Id 0 (le_n 1)). cbn in D, Id.
     injection D as D. lia.
 Qed.
+
+(* ------------------------------------------------------------------ the clauses of the program, on both sides *)
+
+Lemma alias_env_rel p sA sR pos : forall i rA rR, rel_env p sA sR rA rR ->
+  rel_env p sA sR (alias_env i pos rA) (alias_env i pos rR).
+Proof.
+  induction pos as [|[v|] pr IH]; intros i rA rR E; cbn [alias_env]; auto.
+  apply IH. constructor; [|exact E]. split; [reflexivity|]. cbn [snd]. apply argval_rel. exact E.
+Qed.
+
+Lemma enter_relAA c p sA sR rA rR : rel_st p sA sR -> rel_env p sA sR rA rR ->
+  exists p', rel_st p' (snd (clause_enter c (rA, sA))) (snd (clause_enter c (rR, sR))) /\ agree (nxt sA) p p' /\
+    grows sA (snd (clause_enter c (rA, sA))) /\ grows sR (snd (clause_enter c (rR, sR))) /\
+    rel_env p' (snd (clause_enter c (rA, sA))) (snd (clause_enter c (rR, sR)))
+               (fst (clause_enter c (rA, sA))) (fst (clause_enter c (rR, sR))) /\
+    (forall a, nxt sA <= a -> a < nxt (snd (clause_enter c (rA, sA))) -> nxt sR <= p' a).
+Proof.
+  intros R E. unfold clause_enter.
+  pose proof (alias_env_rel p sA sR (clause_pos c) 0 rA rR E) as E1.
+  destruct (fresh_rel (clause_fv_head c ++ clause_fv_body c) p sA sR _ _ R E1) as [p' [R' [A' [E' F']]]].
+  pose proof (fresh_env_snd (clause_fv_head c ++ clause_fv_body c) (alias_env 0 (clause_pos c) rA) (nxt sA)) as LA.
+  pose proof (fresh_env_snd (clause_fv_head c ++ clause_fv_body c) (alias_env 0 (clause_pos c) rR) (nxt sR)) as LR.
+  destruct (fresh_env (clause_fv_head c ++ clause_fv_body c) (alias_env 0 (clause_pos c) rA) (nxt sA)) as [rA2 kA].
+  destruct (fresh_env (clause_fv_head c ++ clause_fv_body c) (alias_env 0 (clause_pos c) rR) (nxt sR)) as [rR2 kR].
+  cbn [fst snd] in *. exists p'.
+  split; [exact R'|]. split; [exact A'|].
+  split; [split; cbn [sto nxt]; [lia|apply ext_refl]|]. split; [split; cbn [sto nxt]; [lia|apply ext_refl]|].
+  split; [exact E'|exact F'].
+Qed.
+
+Section ActivationAA.
+Variables cA cR : str -> list term -> st -> list st * bool.
+Hypothesis Hcall : call_rel cA cR.
+Variable p0 : nat -> nat.
+Variables sA0 sR0 : st.
+
+Lemma clausesAA_rel cs : forall c1 c2, cfg_rel0 p0 sA0 sR0 c1 c2 ->
+  Forall2 (cfg_rel0 p0 sA0 sR0) (fst (clausesA cA cs c1)) (fst (clausesA cR cs c2)) /\
+  snd (clausesA cA cs c1) = snd (clausesA cR cs c2).
+Proof.
+  induction cs as [|c rest IH]; intros c1 c2 H; cbn [clausesA]; [split; [constructor|reflexivity]|].
+  destruct c1 as [rA sA], c2 as [rR sR]. destruct H as [p1 [R1 [E1 [A1 [GA [GR F1]]]]]]. cbn [fst snd] in *.
+  destruct (enter_relAA c p1 sA sR rA rR R1 E1) as [p2 [R2 [A2 [GA2 [GR2 [E2 F2]]]]]].
+  assert (H1: cfg_rel0 p0 sA0 sR0 (clause_enter c (rA, sA)) (clause_enter c (rR, sR))).
+  { exists p2. split; [exact R2|]. split; [exact E2|].
+    split; [eapply agree_trans; [apply GA|exact A1|exact A2]|].
+    split; [exact (grows_trans _ _ _ GA GA2)|]. split; [exact (grows_trans _ _ _ GR GR2)|].
+    intros a L1 L2. destruct (Nat.lt_ge_cases a (nxt sA)) as [L|L].
+    - rewrite <- (A2 a L). apply F1; assumption.
+    - pose proof (F2 a L L2) as H. destruct GR as [GR _]. lia. }
+  destruct (clause_res_rel cA cR Hcall p0 sA0 sR0 c _ _ H1) as [Q1 Q2].
+  destruct (clause_res cA c (clause_enter c (rA, sA))) as [ysA fA], (clause_res cR c (clause_enter c (rR, sR))) as [ysR fR].
+  cbn [fst snd] in *. subst fR.
+  destruct fA; try (split; [exact Q1|reflexivity]).
+  destruct (IH _ _ H1) as [Q3 Q4].
+  destruct (clausesA cA rest (clause_enter c (rA, sA))) as [zsA gA], (clausesA cR rest (clause_enter c (rR, sR))) as [zsR gR].
+  cbn [fst snd] in *. split; [apply Forall2_app; assumption|exact Q4].
+Qed.
+End ActivationAA.
+
+(* ------------------------------------------------------------------ programs: Python predicates vs compiled facts *)
+
+Definition py_fun_src (x : list (list sterm) * list bool) : nfun := native_rows (map row_of_src (fst x)) (snd x).
+Definition py_table_src (l : list pyspec) : list (str * nat * nfun) := map (fun e => (fst e, py_fun_src (snd e))) l.
+
+(* stored facts are closed rows: their variables are 0 .. r_nv-1 (what assert_fact's copy produces) *)
+Definition dyn_ok (dynl : list (str * nat * list frow)) : Prop := Forall (fun e => Forall frow_ok (snd e)) dynl.
+
+Lemma dyn_ok_lookup dynl name k : dyn_ok dynl ->
+  Forall frow_ok (match lookup_fix dynl name k with Some rows => rows | None => [] end).
+Proof.
+  induction dynl as [|[[n0 k0] rows] r IH]; intros H; cbn [lookup_fix]; [constructor|].
+  inversion H; subst. destruct (key_eq (n0, k0) (name, k)); [assumption|apply IH; assumption].
+Qed.
+
+Section SourceRel.
+Variables rules P : program.
+Variables ir irf : ir_program.
+Variable specs : list pyspec.
+Variable dynl : list (str * nat * list frow).
+Hypothesis Hrules : compile_program rules = Some ir.
+Hypothesis HP : compile_program P = Some irf.
+Hypothesis Grules : good_program rules.
+Hypothesis GP : good_program P.
+Hypothesis Hdyn : dyn_ok dynl.
+(* P = rules + the facts of the replaced predicates; rows with variables allowed, no aliased head argument *)
+Hypothesis Hsplit : forall name k,
+  match lookup_fix specs name k with
+  | Some (rows, vals) => rows <> [] /\ Forall (fun row => noalias row /\ length row = k) rows /\
+                         clauses_for P name k = map (fact_clause name) rows
+  | None => clauses_for P name k = clauses_for rules name k
+  end.
+
+Definition w_python_src : world := mk_world ir (py_table_src specs) [] dynl.
+
+Lemma call_function_rel cA cR : call_rel cA cR -> forall p sA sR name argsA argsR,
+  rel_st p sA sR -> Forall2 (rel_val p sA sR) argsA argsR ->
+  res_rel p sA sR (call_function cA w_python_src name argsA sA) (call_function cR (w_compiled irf dynl) name argsR sR).
+Proof.
+  intros Hc p sA sR name argsA argsR R E.
+  pose proof (Forall2_length_eq _ _ _ E) as EL.
+  unfold call_function. cbn [w_python_src w_compiled mk_world w_fix w_ir w_var lookup_fix lookup_var].
+  unfold py_table_src. rewrite lookup_fix_map. rewrite <- EL.
+  pose proof (Hsplit name (length argsA)) as Hs.
+  pose proof (compiled_key_run P irf cR name argsR sR HP GP) as RP. rewrite <- EL in RP.
+  destruct (lookup_fix specs name (length argsA)) as [[rows vals]|]; cbn [option_map].
+  - destruct Hs as [NE [Fr EC]]. rewrite EC in RP.
+    destruct (map (fact_clause name) rows) as [|c0 cs0] eqn:EM; [destruct rows; [congruence|discriminate]|].
+    destruct RP as [f [HF RUN]]. rewrite HF, RUN. rewrite <- EM.
+    unfold py_fun_src. cbn [fst snd]. rewrite drop_native_rows.
+    destruct (facts_rows_rel cR name rows p sA sR argsA argsR (bind_args 0 argsR) sR R E Fr eq_refl (le_n _) (fun j => eq_refl))
+      as [Q1 Q2].
+    split; cbn [fst snd]; assumption.
+  - pose proof (compiled_key_run rules ir cA name argsA sA Hrules Grules) as RR. rewrite Hs in RP.
+    destruct (clauses_for rules name (length argsA)) as [|c cs].
+    + rewrite RR, RP.
+      pose proof (builtin_rel cA cR Hc p sA sR name argsA argsR R E) as HB.
+      destruct (str_eqb name (s_ "call")); destruct (builtin cA name argsA sA) as [rA|], (builtin cR name argsR sR) as [rR|];
+        try contradiction; try exact HB; (split; [apply Forall2_nil|reflexivity]).
+    + destruct RR as [f1 [HF1 RUN1]]. destruct RP as [f2 [HF2 RUN2]]. rewrite HF1, HF2, RUN1, RUN2.
+      assert (H0: cfg_rel0 p sA sR (bind_args 0 argsA, sA) (bind_args 0 argsR, sR)).
+      { exists p. cbn [fst snd]. split; [exact R|]. split; [apply bind_args_rel; exact E|].
+        split; [apply agree_refl|]. split; [apply grows_refl|]. split; [apply grows_refl|]. intros a L1 L2; lia. }
+      destruct (clausesAA_rel cA cR Hc p sA sR (c :: cs) _ _ H0) as [Q1 Q2].
+      destruct (clausesA cA (c :: cs) (bind_args 0 argsA, sA)) as [ysA fA].
+      destruct (clausesA cR (c :: cs) (bind_args 0 argsR, sR)) as [ysR fR]. cbn [fst snd] in *. subst fR.
+      split; [|reflexivity]. cbn [fst]. clear RUN1 RUN2.
+      induction Q1 as [|[rA xA] [rR xR] lA lR [p' [R' [_ [A' [GA [GR F']]]]]] Q IHQ]; cbn [map]; [constructor|].
+      constructor; [|exact IHQ]. exists p'. cbn [fst snd] in *. auto.
+Qed.
+
+(* one level of YP.query *)
+Lemma nstep_rel cA cR : call_rel cA cR -> call_rel (nstep cA w_python_src) (nstep cR (w_compiled irf dynl)).
+Proof.
+  intros Hc p sA sR name argsA argsR R E. unfold nstep. cbn [w_python_src w_compiled mk_world w_dyn].
+  rewrite <- (Forall2_length_eq _ _ _ E).
+  destruct (match_rows_rel _ (dyn_ok_lookup dynl name (length argsA) Hdyn) p sA sR argsA argsR R E) as [D1 D2].
+  destruct (match_rows match lookup_fix dynl name (length argsA) with Some rows => rows | None => [] end argsA sA) as [dsA deA].
+  destruct (match_rows match lookup_fix dynl name (length argsA) with Some rows => rows | None => [] end argsR sR) as [dsR deR].
+  cbn [fst snd] in *. subst deR.
+  destruct deA; [split; [exact D1|reflexivity]|].
+  destruct (Resolve.reserved name); [split; [exact D1|reflexivity]|].
+  destruct (call_function_rel cA cR Hc p sA sR name argsA argsR R E) as [Q1 Q2].
+  destruct (call_function cA w_python_src name argsA sA) as [fsA feA].
+  destruct (call_function cR (w_compiled irf dynl) name argsR sR) as [fsR feR]. cbn [fst snd] in *.
+  split; [apply Forall2_app; assumption|exact Q2].
+Qed.
+
+(* subset_interchangeable for rows with variables: the engine with Python predicates and the all-compiled engine are in
+   the relation call_rel of Sem/RenameSim.v at every depth *)
+Theorem source_call_rel : forall n, call_rel (nquery n w_python_src) (nquery n (w_compiled irf dynl)).
+Proof.
+  induction n as [|n IH]; intros p sA sR f argsA argsR R E; [split; [constructor|reflexivity]|].
+  cbn [nquery]. exact (nstep_rel _ _ IH p sA sR f argsA argsR R E).
+Qed.
+
+Theorem source_subset_interchangeable_renaming : forall n name args s,
+  wf (sto s) -> inv s -> Forall (bounded (nxt s)) args ->
+  Forall2 (same_answer s) (fst (nquery n w_python_src name args s)) (fst (nquery n (w_compiled irf dynl) name args s)) /\
+  snd (nquery n w_python_src name args s) = snd (nquery n (w_compiled irf dynl) name args s).
+Proof.
+  intros n name args s W I B. apply res_rel_same_answer. unfold res_rel.
+  apply (source_call_rel n id_ren s s name args args (rel_st_id s W I) (rel_vals_id s args W I B)).
+Qed.
+End SourceRel.
